@@ -387,6 +387,7 @@ func c12CheckStage(ctx *Ctx, idx int, cs *c12Stage) {
 	}
 	if msg := c12StageOracle(cs, o); msg != "" {
 		ctx.Rep.Fail(hx.Failure{Kind: "property-fails", Detail: "executeRequests: " + msg, Case: cs, Impl: o, Index: idx})
+		flushReport(ctx)
 	}
 	if ctx.Driver == nil {
 		return
@@ -402,6 +403,7 @@ func c12CheckStage(ctx *Ctx, idx int, cs *c12Stage) {
 	res, err := ctx.Driver.Call(req)
 	if err != nil {
 		ctx.Rep.Fail(hx.Failure{Kind: "harness-error", Detail: err.Error(), Case: cs, Index: idx})
+		flushReport(ctx)
 		return
 	}
 	ctx.Rep.Traces++
@@ -450,6 +452,7 @@ func c12CheckStage(ctx *Ctx, idx int, cs *c12Stage) {
 	}
 	if mismatch != "" {
 		ctx.Rep.Fail(hx.Failure{Kind: "model-mismatch", Detail: "executeRequests vs Model.IndexMap.executeRequests: " + mismatch, Case: cs, Impl: o, Model: res, Index: idx})
+		flushReport(ctx)
 	}
 }
 
@@ -754,6 +757,7 @@ func c12CheckE2E(ctx *Ctx, idx int, cs *c12E2E) {
 	// ---- property oracle
 	fail := func(msg string) {
 		ctx.Rep.Fail(hx.Failure{Kind: "property-fails", Detail: msg, Case: cs, Impl: obs, Index: idx})
+		flushReport(ctx)
 	}
 	for s, m := range perSvcHTTP {
 		u := fed.URL(s)
@@ -816,6 +820,7 @@ func c12CheckE2E(ctx *Ctx, idx int, cs *c12E2E) {
 	res, err := ctx.Driver.Call(map[string]interface{}{"op": "c12.levels", "roots": tree, "depths": maxDepth + 1, "fan": 1, "urls": urls})
 	if err != nil {
 		ctx.Rep.Fail(hx.Failure{Kind: "harness-error", Detail: err.Error(), Case: cs, Index: idx})
+		flushReport(ctx)
 		return
 	}
 	ctx.Rep.Traces++
@@ -828,6 +833,7 @@ func c12CheckE2E(ctx *Ctx, idx int, cs *c12E2E) {
 		}
 		if n != bound[u] {
 			ctx.Rep.Fail(hx.Failure{Kind: "model-mismatch", Detail: fmt.Sprintf("levels owned by %s: harness %d, Model.ExecLevels %d", u, bound[u], n), Case: cs, Model: res, Index: idx})
+			flushReport(ctx)
 			return
 		}
 	}
@@ -837,6 +843,7 @@ func c12CheckE2E(ctx *Ctx, idx int, cs *c12E2E) {
 			v, _ := x.Int64()
 			if len(m) > int(v) {
 				ctx.Rep.Fail(hx.Failure{Kind: "model-mismatch", Detail: fmt.Sprintf("%d calls to %s exceed the model's bound %d", len(m), u, v), Case: cs, Model: res, Index: idx})
+				flushReport(ctx)
 			}
 		}
 	}
